@@ -19,7 +19,7 @@ from contextvars import ContextVar, Token
 from typing import Any, Optional
 
 from .batching import BatchItemBase
-from .futures import ConstFuture
+from .futures import ConstFuture, ErrorFuture, Future
 
 _asyncio_mode = ContextVar("asyncio_mode", default=False)
 
@@ -53,7 +53,8 @@ async def resolve_awaitables(x: Any):
     """
     if isinstance(x, Awaitable):
         return await x
-    if isinstance(x, ConstFuture):
+    if isinstance(x, (ConstFuture, ErrorFuture, Future)):
+        # futures that need no scheduler: a constant, an error (value() raises it), a lazy value provider
         return x.value()
     if isinstance(x, BatchItemBase):
         raise RuntimeError("asynq BatchItem is not supported in asyncio mode")
